@@ -240,6 +240,7 @@ def run(facts, rep):
     selftest(T, rep)
     check_shared_visited(facts, rep)
     check_exhaustive_sweep(facts, rep)
+    check_closure_gluing(facts, rep)
     return check_tables(T, rep)
 
 
@@ -333,6 +334,44 @@ def check_exhaustive_sweep(facts, rep):
             rep.violation('E7.T9-exhaustive-sweep', inst, 'Link::%s: ' % fn + '; '.join(bad) + ': the sweep stops at the first crossing whose start edge was already visited, later components are left to the fallback pass (walked against their orientation: signs depend on the crossing order) or are lost', where=b.where())
         else:
             rep.ok('E7.T9-exhaustive-sweep', inst, 'for i0 in 0..n, exits only through next() == None; positions %s' % sorted(pos))
+
+
+def check_closure_gluing(facts, rep):
+    """T10: Braid::closure glues the edge hanging at strand *position* i to the top edge i: the connection map is built
+    by zipping bottom_edges (in position order) with 0..strands, and applied to every code entry with the entry kept when it
+    is not a bottom edge. Pairing by anything else (e.g. the rank of the label in a sorted list) closes a different braid:
+    same crossing count, wrong components / writhe for words whose last letters are not in left-to-right order."""
+    from symex import SymEx
+    b = facts.bodies.get('yui_link::braid::Braid::closure')
+    if b is None:
+        rep.indet('E7.T10: Braid::closure not found')
+        return
+    rep.saw(b)
+
+    def dk(t):
+        return re.sub(r'loop\d+_\d+', 'L', re.sub(r'\^_ref__', '^', re.sub(r'#\d+\.\d+', '', show(t, -1000)))).replace('&', '').replace('*', '')
+    zips, sorts, rets = set(), set(), set()
+    for p in SymEx(b, havoc_loops=True, max_paths=5000).run():
+        for e in p.calls():
+            n = e.name.split('::')[-1]
+            if n == 'zip' and len(e.args) == 2:
+                zips.add((dk(e.args[0]), dk(e.args[1])))
+            if n.startswith('sort') or n in ('binary_search', 'dedup', 'reverse'):
+                sorts.add(n)
+        if p.end == 'return':
+            rets.add(dk(p.ret))
+    apply = None
+    for k, cb in facts.bodies.items():
+        if k == 'yui_link::braid::Braid::closure::{closure#0}::{closure#0}':
+            apply = sorted({dk(q.ret) for q in SymEx(cb).run() if q.end == 'return'})
+    inst = 'Braid::closure|bottom edge at position i is identified with top edge i'
+    good = zips == {('into_iter(L)', 'Range::Range{start: 0, end: arg1.strands}')} and not sorts and apply == ['unwrap_or(get(arg1.^conn, arg2), arg2)']
+    if good:
+        rep.ok('E7.T10-closure-gluing', inst, 'conn = zip(bottom_edges, 0..strands); x -> conn.get(x).unwrap_or(x)')
+    elif sorts:
+        rep.violation('E7.T10-closure-gluing', inst, 'Braid::closure reorders the bottom edges (%s) before pairing them with the top positions: an edge is glued to the top edge of its *rank*, not of the strand position it hangs at' % sorted(sorts), where=b.where())
+    else:
+        rep.indet('E7.T10: closure gluing outside the recognised fragment: zip %s, apply %s' % (sorted(zips), apply))
 
 
 def selftest(T, rep):
